@@ -26,12 +26,34 @@ def main():
     import auditok.plotting as P
     out = []
     real_plot = P.plot
+    real_os = getattr(W, "os", None)
     for job in jobs:
         res = {"id": job["id"], "exit": None, "raised": None, "stdout": "", "stderr": ""}
         fx = {"commands": [], "played": [], "plots": []}
         if job.get("fx"):
             # side-effect options: os.system as seen by auditok.workers is recorded (the temporary wav is read and removed), a fake pyaudio
             # device collects what is played, plot() is recorded instead of drawn
+            class OsShim:
+                def __getattr__(self_, name):
+                    return getattr(os, name)
+
+                def system(self_, cmd):
+                    f = cmd.split(" ", 1)[1] if " " in cmd else ""
+                    rec = {"cmd": cmd.split(" ")[0], "exists": os.path.exists(f), "sha": None, "par": None}
+                    try:
+                        with wave.open(f) as wf:
+                            rec["sha"] = hashlib.sha1(wf.readframes(-1)).hexdigest()
+                            rec["par"] = [wf.getframerate(), wf.getsampwidth(), wf.getnchannels()]
+                    except Exception:  # noqa
+                        pass
+                    try:
+                        os.remove(f)
+                    except OSError:
+                        pass
+                    fx["commands"].append(rec)
+                    return 0
+            if hasattr(W, "os"):
+                W.os = OsShim()          # os.system() is recorded in-process; any other way of starting the command reaches harness/bin/consume
             consume_dir = os.path.join(job["cwd"], "consumed")
             os.makedirs(consume_dir, exist_ok=True)
             open(os.path.join(consume_dir, "log"), "w").close()
@@ -136,6 +158,8 @@ def main():
             import shutil
             shutil.rmtree(consume_dir, ignore_errors=True)
         res["fx"] = fx
+        if real_os is not None:
+            W.os = real_os
         P.plot = real_plot
         sys.modules.pop("pyaudio", None)
         # one process runs many command lines: the named logger of cmdline_util must not carry handlers from one to the next
